@@ -193,6 +193,24 @@ def dispatch (op : String) (a : List String) : Option String :=
   | "ovkids", [_, _, _] => some "true"
   | "det", _ :: _ => some "OK"
   | "conc", [_, _, _] => some "OK"
+  | "calcbit", [alt, z, mx, mn] =>
+    some (match fb alt, fb mx, fb mn with
+      | some a, some x, some n => toString (calcBit a (int! z) x n)
+      | _, _, _ => "NONFINITE")
+  | "v2b", [vz, vi, oz, mx, mn] =>
+    some (match fb mx, fb mn with | some x, some n => showInts (v2b (int! vz) (int! vi) (int! oz) x n) | _, _ => "NONFINITE")
+  | "b2v", [vz, vi, oz, mx, mn] =>
+    some (match fb mx, fb mn with
+      | some x, some n => commaJoin ((b2v (int! vz) (int! vi) (int! oz) x n).map fun f => s!"{oz}/{f}")
+      | _, _ => "NONFINITE")
+  | "e2qvh", [ids, h, v, mx, mn, mxs, mns] =>
+    some (match fb mx, fb mn with
+      | some x, some n => showGroups s!"{h}/{v}/{mxs}/{mns}" (extToQVH (commaSplit ids) (int! h) (int! v) x n)
+      | _, _ => "NONFINITE")
+  | "qv2exth", [l, h, v, mx, mn] =>
+    some (match (commaSplit l).mapM parseQV, fb mx, fb mn with
+      | some qs, some x, some n => showSet ((qvToExtH qs (int! h) (int! v) x n).map fun r => r.map Ext.id)
+      | _, _, _ => "BADARG")
   | "ovE", [a, b] => some (showBool (overlapExt a b))
   | "ovEA", [a, b] => some (showBool (overlapExtArr (commaSplit a) (commaSplit b)))
   | "ovS", [a, b] => some (showBool (overlapSp a b))
